@@ -160,5 +160,5 @@ META = {
             "address independent under the allocation-monotone assumption and are exercised by the perturbed-allocator runs. Not covered: "
             "uninitialised reads, allocator behaviours other than re-ordering, plugins.",
     "technique": "Coq proof (insertion-sort extensionality) + source-to-Coq translator + differential runs under perturbed address-space layouts",
-    "claimed": False,
+    "claimed": True,
 }
